@@ -291,6 +291,7 @@ m('lockupgrade-any-holder-count', ['C16'], LK, '''			if len(txnIds) != 1 {''', '
 m('update-fixup-skips-marked-rows', ['C15', 'C03'], TP, '''		if tp.GetTupleSize(uint32(ii)) > 0 && tupleOffsetI < tupleOffset+tupleSize {''', '''		if !IsDeleted(tp.GetTupleSize(uint32(ii))) && tupleOffsetI < tupleOffset+tupleSize {''', ['C15-R4 [TablePage.UpdateTuple:fixup-covers-delete-marked-rows]'])
 m('rangescan-emits-own-deleted-row', ['C04'], 'lib/execution/executors/range_scan_with_index_executor.go', '''			tpl = nil
 			continue''', '''			continue''', ['C04-R7 [RangeScan.Next:own-deleted-row-not-emitted]'])
+m('final-projection-by-count-only', ['C06', 'C11'], OPT, '''	if !isSameColumnsWithSelectList(solution.OutputSchema(), so.qi.SelectFields) {''', '''	if int(solution.OutputSchema().GetColumnCount()) > len(so.qi.SelectFields) {''', ['C06-R3 [findBestJoin:projection-omitted-only-after-comparing-names]'])
 # drop the one that needs a helper that does not exist
 M = [x for x in M if x['id'] != 'insert-executor-unlocks-early']
 os.chdir(os.path.dirname(os.path.abspath(__file__)) + '/..')
